@@ -1720,7 +1720,9 @@ func MarshalNLRI(value bgp.NLRI) (*api.NLRI, error) {
 		}
 	case *bgp.SRPolicyNLRI:
 		nlri.Nlri = &api.NLRI_SrPolicy{SrPolicy: &api.SRPolicyNLRI{
-			Length:        uint32(v.Length),
+			// SRPolicyNLRI keeps the length in octets; the API field, like the wire
+			// field and the argument of NewSRPolicy, is in bits.
+			Length:        uint32(v.Length) * 8,
 			Distinguisher: v.Distinguisher,
 			Color:         v.Color,
 			Endpoint:      v.Endpoint,
